@@ -26,6 +26,11 @@ Reading of the property's words.
   shared between overlapping scrapes would break the clause and `src_render_per_request` pinning that the code
   shares none.  Other clients' renderings are neither needed nor in the way (`own_rendering_suffices`,
   `refusal_and_health_never_wait`).
+* "a GET on any path": ANY complete GET, also from a client that shuts down its write side right after it
+  (`printf … | nc`): `half_closing_client_served` (the code sets `half_close(true)`, `src_connection_task`);
+  `default_eof_drops_request` is the witness that hyper's default breaks the clause (the tree before `fix-C18`).
+  "Path" is `req.uri().path()`: the path component of the target in origin-form, absolute-form, with a fragment
+  (`pathOf_query`, `pathOf_fragment`, `pathOf_absolute`, `health_targets`).
 * "aborted, malformed or concurrent requests never prevent later clients from being served": connections share
   no state (one task per connection, decision per connection); in the model a faulty connection is an event that
   changes nothing (`faults_transparent`).  That hyper / tokio really isolate connections is exercised by the
@@ -322,16 +327,150 @@ theorem outsider_health_is_403 (nets : List Net) (peer : Addr) (rendered : List 
     respond (some nets) peer healthPath rendered = ⟨403, []⟩ :=
   deny_outside nets peer healthPath rendered h
 
-/-- the query string is not part of the path: `/health?x` is the health check -/
-theorem pathOf_query (p q : List Char) (h : ∀ c, c ∈ p → c ≠ '?') : pathOf (p ++ '?' :: q) = p := by
-  unfold pathOf
+/-! ## the path of a request target (`req.uri().path()`)
+
+The property says "path": the path component of the request target as RFC 3986 splits it, which is what
+`http::Uri::path` returns — for the origin-form `/path?query` every client normally sends, for the absolute-form
+`http://host/path?query` of a client behind a proxy, and (because `httparse` lets it through) with a `#fragment`
+cut off.  `GET /health?x`, `GET /health#x` and `GET http://h/health` are all the health check. -/
+
+/-- the path part of a text ends at the first `?` or `#` -/
+theorem pathPart_cut (p q : List Char) (c : Char) (hc : endsPath c = true)
+    (h : ∀ d, d ∈ p → endsPath d = false) : pathPart (p ++ c :: q) = p := by
+  unfold pathPart
   induction p with
-  | nil => simp
-  | cons c cs ih =>
-    have hc : c ≠ '?' := h c (by simp)
-    have := ih (fun d hd => h d (by simp [hd]))
-    simp [hc]
+  | nil => simp [hc]
+  | cons d ds ih =>
+    have hd : endsPath d = false := h d (by simp)
+    have := ih (fun e he => h e (by simp [he]))
+    simp [hd]
     simpa using this
+
+/-- a text without `?` and `#` is its own path part -/
+theorem pathPart_all (p : List Char) (h : ∀ d, d ∈ p → endsPath d = false) : pathPart p = p := by
+  unfold pathPart
+  induction p with
+  | nil => rfl
+  | cons d ds ih =>
+    have hd : endsPath d = false := h d (by simp)
+    simp [hd]
+    simpa using ih (fun e he => h e (by simp [he]))
+
+/-- origin-form targets: the path is the text before the first `?` or `#` -/
+theorem pathOf_origin (t : List Char) : pathOf ('/' :: t) = pathPart ('/' :: t) := rfl
+
+/-- **pathOf_query**: the query string is not part of the path: `/health?x` is the health check -/
+theorem pathOf_query (p q : List Char) (h : ∀ c, c ∈ p → endsPath c = false) :
+    pathOf ('/' :: p ++ '?' :: q) = '/' :: p := by
+  rw [List.cons_append, pathOf_origin, ← List.cons_append]
+  exact pathPart_cut ('/' :: p) q '?' (by decide) (by
+    intro d hd
+    simp only [List.mem_cons] at hd
+    rcases hd with rfl | hd
+    · decide
+    · exact h d hd)
+
+/-- **pathOf_fragment**: a fragment (which `httparse` lets through) is not part of the path: `/health#x` is the
+    health check, `/metrics#/health` is not -/
+theorem pathOf_fragment (p q : List Char) (h : ∀ c, c ∈ p → endsPath c = false) :
+    pathOf ('/' :: p ++ '#' :: q) = '/' :: p := by
+  rw [List.cons_append, pathOf_origin, ← List.cons_append]
+  exact pathPart_cut ('/' :: p) q '#' (by decide) (by
+    intro d hd
+    simp only [List.mem_cons] at hd
+    rcases hd with rfl | hd
+    · decide
+    · exact h d hd)
+
+theorem afterScheme_cons (c : Char) (cs : List Char) (h : isSchemeChar c = true) :
+    afterScheme (c :: cs) = afterScheme cs := by
+  have hne : c ≠ ':' := by
+    intro h'; subst h'; revert h; decide
+  cases cs with
+  | nil => simp [afterScheme, h]
+  | cons d ds =>
+    cases ds with
+    | nil => simp [afterScheme, h]
+    | cons e es => simp [afterScheme, h, hne]
+
+theorem afterScheme_scheme (sc rest : List Char) (h : ∀ c, c ∈ sc → isSchemeChar c = true) :
+    afterScheme (sc ++ ':' :: '/' :: '/' :: rest) = some rest := by
+  induction sc with
+  | nil => simp [afterScheme]
+  | cons c cs ih =>
+    rw [List.cons_append, afterScheme_cons c _ (h c (by simp))]
+    exact ih (fun d hd => h d (by simp [hd]))
+
+theorem dropWhile_authority (auth t : List Char) (h : ∀ c, c ∈ auth → endsAuthority c = false) :
+    (auth ++ '/' :: t).dropWhile (fun c => !endsAuthority c) = '/' :: t := by
+  induction auth with
+  | nil => simp [endsAuthority]
+  | cons c cs ih =>
+    have hc : endsAuthority c = false := h c (by simp)
+    simp [hc]
+    simpa using ih (fun d hd => h d (by simp [hd]))
+
+/-- **pathOf_absolute**: the absolute form of a target — `scheme://authority` in front of it, what a client talking
+    through a proxy sends — has the same path as the target itself: `GET http://host:9000/health` is the health
+    check, `GET http://health/metrics` is not. -/
+theorem pathOf_absolute (sc auth t : List Char) (hne : sc ≠ []) (hsc : ∀ c, c ∈ sc → isSchemeChar c = true)
+    (hauth : ∀ c, c ∈ auth → endsAuthority c = false) :
+    pathOf (sc ++ ':' :: '/' :: '/' :: (auth ++ '/' :: t)) = pathOf ('/' :: t) := by
+  obtain ⟨c, cs, rfl⟩ := List.exists_cons_of_ne_nil hne
+  have hc : isSchemeChar c = true := hsc c (by simp)
+  have h1 : c ≠ '/' := by intro h'; subst h'; revert hc; decide
+  have h2 : c ≠ '*' := by intro h'; subst h'; revert hc; decide
+  have hs := afterScheme_scheme (c :: cs) (auth ++ '/' :: t) hsc
+  have hd := dropWhile_authority auth t hauth
+  have hp : (pathPart ('/' :: t)).isEmpty = false := by
+    simp [pathPart, endsPath]
+  rw [pathOf_origin]
+  simp only [List.cons_append] at hs ⊢
+  unfold pathOf
+  split
+  · rename_i heq; exact absurd (List.cons.inj heq).1 h1
+  · rename_i heq; exact absurd (List.cons.inj heq).1 h2
+  · rw [hs]
+    simp only [hd, hp]
+    rfl
+
+/-- **health_targets**: which origin-form targets are the health check: exactly `/health` itself and `/health`
+    followed by a query or a fragment — nothing with a trailing slash, another case, a prefix or an encoding. -/
+theorem health_targets (t : List Char) :
+    pathOf ('/' :: t) = healthPath ↔
+      '/' :: t = healthPath ∨ ∃ c q, endsPath c = true ∧ '/' :: t = healthPath ++ c :: q := by
+  rw [pathOf_origin]
+  unfold pathPart
+  generalize '/' :: t = l
+  constructor
+  · intro h
+    have key : ∀ (l a : List Char), l.takeWhile (fun c => !endsPath c) = a →
+        l = a ∨ ∃ c q, endsPath c = true ∧ l = a ++ c :: q := by
+      intro l
+      induction l with
+      | nil => intro a h; left; simpa using h
+      | cons d ds ih =>
+        intro a h
+        cases hd : endsPath d with
+        | true =>
+          simp [hd] at h
+          subst h
+          right; exact ⟨d, ds, hd, rfl⟩
+        | false =>
+          simp [hd] at h
+          cases a with
+          | nil => cases h
+          | cons a0 as =>
+            obtain ⟨h0, h1⟩ := List.cons.inj h
+            subst h0
+            rcases ih as h1 with h2 | ⟨c, q, hc, h2⟩
+            · left; rw [h2]
+            · right; exact ⟨c, q, hc, by rw [h2]; rfl⟩
+    exact key l healthPath h
+  · rintro (h | ⟨c, q, hc, h⟩)
+    · subst h; decide
+    · subst h
+      exact pathPart_cut healthPath q c hc (by decide)
 
 /-! ## histories: faults and concurrency change nothing -/
 
@@ -617,6 +756,110 @@ theorem run2_refines_run (arm : LoopAct) (render : Nat → List Char) (addr port
         Endpoint.isAllowed, List.map_cons, List.map_nil, serveReq, wire, hg, if_false, respond]
       rw [ih s]
       rfl
+
+/-! ## clients that half-close (complete request, then FIN, then wait for the answer)
+
+Clause 1 quantifies over every GET: the client that shuts down its write side after a complete request has sent a
+well-formed request and must be answered.  `stepEv3` has that client as an event and the connection's reaction to
+the EOF as a parameter (`EofAct`), the way `stepEv2` has the accept loop's error arm. -/
+
+/-- with `half_close(true)` a half-closing client IS an ordinary connection -/
+theorem stepEv3_finish (arm : LoopAct) (render : Nat → List Char) (s : Sess2) (e : Ev3) :
+    stepEv3 arm .finish render s e = stepEv2 arm render s e.plain := by
+  cases e <;> rfl
+
+/-- **run3_refines_run2**: with `half_close(true)` every third-layer history is the second-layer history in which
+    each half-closing client is an ordinary connection with the same requests: all second-layer theorems
+    (`endpoint_invariant`, `later_clients_served`, `noise_transparent`, `deny_outside_any_request`, …) speak about
+    histories with half-closing clients as well. -/
+theorem run3_refines_run2 (arm : LoopAct) (render : Nat → List Char) (s : Sess2) (evs : List Ev3) :
+    run3 arm .finish render s evs = run2 arm render s (evs.map Ev3.plain)
+      ∧ runState3 arm .finish render s evs = runState2 arm render s (evs.map Ev3.plain) := by
+  induction evs generalizing s with
+  | nil => exact ⟨rfl, rfl⟩
+  | cons e es ih =>
+    simp only [run3, runState3, List.map_cons, run2, runState2, stepEv3_finish]
+    exact ⟨by rw [(ih _).1], (ih _).2⟩
+
+/-- **half_closing_client_served**: with `half_close(true)`, after ANY history (faults, accept errors, other
+    half-closing clients, concurrent and earlier connections) a client that sends complete requests and then shuts
+    down its write side gets exactly the answers the decision prescribes — one per request, computed from the
+    metrics as they are then, by the allowlist the listener was built with: 200 with the rendering (or "OK") for a
+    peer inside, 403 with an empty body for a peer outside. -/
+theorem half_closing_client_served (render : Nat → List Char) (s : Sess2) (hr : s.running = true)
+    (pre : List Ev3) (peer : Peer) (reqs : List Req) :
+    (stepEv3 .continue .finish render (runState3 .continue .finish render s pre) (.halfClose peer reqs)).2 =
+      match s.ep.isAllowed peer with
+      | some ok => reqs.map (serveReq ok (render (s.metrics + updates (pre.map Ev3.plain))))
+      | none => [] := by
+  rw [stepEv3_finish, (run3_refines_run2 .continue render s pre).2]
+  exact later_clients_served render s hr (pre.map Ev3.plain) peer reqs
+
+/-- the state after one third-layer event does not depend on the EOF option (a dropped connection and a served
+    one both leave the listener as it was) -/
+theorem stepEv3_state (arm : LoopAct) (eof : EofAct) (render : Nat → List Char) (s : Sess2) (e : Ev3) :
+    (stepEv3 arm eof render s e).1 = (stepEv2 arm render s e.plain).1 := by
+  cases e with
+  | ev e => rfl
+  | halfClose peer reqs =>
+    cases eof with
+    | finish => rfl
+    | drop =>
+      simp only [stepEv3, Ev3.plain, stepEv2]
+      split
+      · split <;> rfl
+      · rfl
+
+/-- **endpoint_invariant3**: under EITHER option, no history with half-closing clients stops the listener or
+    changes its endpoint / allowlist / metrics: whatever happens to the half-closing client itself, it is never in
+    the way of later clients. -/
+theorem endpoint_invariant3 (eof : EofAct) (render : Nat → List Char) (s : Sess2) (evs : List Ev3) :
+    runState3 .continue eof render s evs = runState2 .continue render s (evs.map Ev3.plain) := by
+  induction evs generalizing s with
+  | nil => rfl
+  | cons e es ih =>
+    simp only [runState3, List.map_cons, runState2, stepEv3_state]
+    exact ih _
+
+/-- **default_eof_drops_request**: the repair is needed.  With hyper's default (`half_close(false)`, the tree
+    before `fix-C18`) there is a running listener without allowlist, a peer and ONE complete `GET /metrics` such
+    that the half-closing client gets no answer at all, while the same request from a client that keeps its write
+    side open is answered 200 with the rendering: clause 1 ("a GET on any path other than /health returns 200 …")
+    fails for a well-formed request.  Witness replayed on the real listener by the harness (`allow hc …`). -/
+theorem default_eof_drops_request :
+    ∃ (s : Sess2) (peer : Peer) (q : Req),
+      s.running = true ∧ s.ep.isAllowed peer = some true ∧ q.method = ['G', 'E', 'T'] ∧
+      pathOf q.target ≠ healthPath ∧
+      (stepEv3 .continue .drop (fun _ => ['r']) s (.halfClose peer [q])).2 = [] ∧
+      (stepEv3 .continue .drop (fun _ => ['r']) s (.ev (.conn peer [q]))).2 = [⟨200, ['r']⟩] ∧
+      (stepEv3 .continue .finish (fun _ => ['r']) s (.halfClose peer [q])).2 = [⟨200, ['r']⟩] :=
+  ⟨⟨.tcp 0 none, 0, true⟩, .ip ⟨.v4, 2130706433⟩ 40000, ⟨['G', 'E', 'T'], ['/', 'm', 'e', 't', 'r', 'i', 'c', 's'], []⟩,
+    rfl, rfl, rfl, by decide, rfl, by decide, by decide⟩
+
+/-- **src_connection_task**: facts extracted from the current source about the task that serves one connection
+    and about the request line, which no run on this machine can observe in general.
+    * the options set on `HyperHttpBuilder::new()` before `.serve_connection(..)` are exactly `half_close(true)`, on
+      the TCP and on the unix-socket path (`EofAct.finish`: `half_closing_client_served`) — no `max_buf_size`,
+      `pipeline_flush`, `keep_alive(false)`, `header_read_timeout`;
+    * the whole `tokio::spawn(async move { … })` block is `if let Err(err) = <that connection>.await { warn!(..) }`:
+      nothing wraps the connection future (no `timeout(..)`, no `select!`, no permit), so a connection lives until
+      hyper ends it: a persistent connection is not cut between two scrapes and a slow rendering is not cut short;
+    * before the spawn, `process_tcp_stream` calls nothing but `check_tcp_allowed`, the handle's `clone` and
+      `service_fn` (nothing is set on the accepted stream: no `set_ttl`, no `set_linger`); the accept arm hands the
+      stream on as it is; `new_http_listener` only binds, sets non-blocking mode and converts the listener;
+    * the path the handler matches on is `req.uri().path()` (`pathOf`). -/
+theorem src_connection_task :
+    eofOfSource Generated.tcp_conn_options = EofAct.finish
+    ∧ eofOfSource Generated.uds_conn_options = EofAct.finish
+    ∧ Generated.tcp_spawn_block
+        = "{ifletErr(err)=HyperHttpBuilder::new().half_close(true).serve_connection(TokioIo::new(stream),service).await{warn!(error=?err,\"Errorservingconnection.\");}}"
+    ∧ Generated.uds_spawn_block
+        = "{ifletErr(err)=HyperHttpBuilder::new().half_close(true).serve_connection(TokioIo::new(stream),service).await{warn!(error=?err,\"Errorservingconnection.\");};}"
+    ∧ Generated.tcp_process_calls = ["check_tcp_allowed", "clone", "service_fn", "Self::handle_http_request", "clone"]
+    ∧ Generated.serve_tcp_ok_arm = "stream" ∧ Generated.serve_uds_ok_arm = "stream"
+    ∧ Generated.new_http_listener_calls = ["set_nonblocking", "TcpListener::bind", "TcpListener::from_std"]
+    ∧ Generated.http_path_scrutinee = "req.uri().path()" :=
+  ⟨by decide, by decide, rfl, rfl, by decide, by decide, by decide, by decide, by decide⟩
 
 /-! ## requests in flight: the body of a 200 response is a rendering taken AFTER the request arrived -/
 
@@ -1092,6 +1335,18 @@ example : respond (some nested) ⟨.v4, lo127 + 255⟩ "/health".toList rendered
 example : respond (some nested) ⟨.v4, lo127 + 300⟩ "/health/".toList rendered = ⟨200, rendered⟩ := by decide
 example : respond none ⟨.v4, 1⟩ "/".toList rendered = ⟨200, rendered⟩ := by decide
 example : pathOf "/health?probe=1".toList = healthPath := by decide
+-- request targets outside `/path?query`: fragment, absolute-form, asterisk-form, authority-form
+example : pathOf "/health#x".toList = healthPath := by decide
+example : pathOf "/health?a#b?c".toList = healthPath := by decide
+example : pathOf "/metrics#/health".toList = "/metrics".toList := by decide
+example : pathOf "http://c18.test:9000/health".toList = healthPath := by decide
+example : pathOf "http://c18.test/health?x=1".toList = healthPath := by decide
+example : pathOf "http://health/metrics".toList = "/metrics".toList := by decide
+example : pathOf "http://c18.test".toList = "/".toList := by decide
+example : pathOf "http://c18.test?/health".toList = "/".toList := by decide
+example : pathOf "*".toList = "*".toList := by decide
+example : pathOf "c18.test:9000".toList = [] := by decide
+example : respond none ⟨.v4, 1⟩ (pathOf "http://h/health#frag".toList) rendered = ⟨200, "OK".toList⟩ := by decide
 
 -- a history with faults in between: the later client is served the then-current value
 example :
@@ -1127,6 +1382,20 @@ example :
       [.update 5, .acceptErr 24, .acceptErr 24, .fault 1 (.ip ⟨.v4, 9⟩ 1), .update 2,
        .conn (.ip ⟨.v4, lo127 + 300⟩ 4000) [⟨"GET".toList, "/m".toList, []⟩]]
       = [[], [], [], [], [], [⟨200, "7".toList⟩]] := by decide
+
+-- a half-closing client between faults and accept errors: served like the ordinary client after it (option of the
+-- code); dropped under hyper's default while everybody else is served as before
+example :
+    run3 .continue .finish (fun n => (toString n).toList) (Sess2.start (.tcp 1 (some nested)))
+      [.ev (.update 5), .ev (.acceptErr 24), .halfClose (.ip ⟨.v4, lo127 + 300⟩ 4000) [⟨"GET".toList, "/m".toList, []⟩, ⟨"GET".toList, "/health#x".toList, []⟩],
+       .halfClose (.ip ⟨.v4, 9⟩ 4000) [⟨"GET".toList, "/m".toList, []⟩], .ev (.update 2),
+       .ev (.conn (.ip ⟨.v4, lo127 + 300⟩ 4001) [⟨"GET".toList, "http://h/health".toList, []⟩, ⟨"GET".toList, "/m".toList, []⟩])]
+      = [[], [], [⟨200, "5".toList⟩, ⟨200, "OK".toList⟩], [⟨403, []⟩], [], [⟨200, "OK".toList⟩, ⟨200, "7".toList⟩]] := by decide
+example :
+    run3 .continue .drop (fun n => (toString n).toList) (Sess2.start (.tcp 1 (some nested)))
+      [.ev (.update 5), .halfClose (.ip ⟨.v4, lo127 + 300⟩ 4000) [⟨"GET".toList, "/m".toList, []⟩],
+       .ev (.conn (.ip ⟨.v4, lo127 + 300⟩ 4001) [⟨"GET".toList, "/m".toList, []⟩])]
+      = [[], [], [⟨200, "5".toList⟩]] := by decide
 
 -- overlapping scrapes: A's rendering loads series 0, the application adds 3 to both series, B arrives (and a denied
 -- peer, answered at once); B cannot be answered before its own loads, then shows both updates; A shows series 0 as
